@@ -170,7 +170,9 @@ func (v *visitor) VisitCondition(ctx *gen.ConditionContext) any {
 		}
 	}
 
-	return NewCondition(propType, propKey, operator, value)
+	c := NewCondition(propType, propKey, operator, value)
+	c.dateFormat = v.env.DateFormat()
+	return c
 }
 
 // expression : expression AND expression
